@@ -26,6 +26,23 @@ ALLOWED_READERS = {
 }
 
 
+def _only_rejects(f, node) -> bool:
+    """The read sits in the test of an `if` whose whole body is `raise ...` (no else), or inside a `raise` statement: the value can
+    only decide whether the problem is rejected (a range check), it cannot reach the numerics."""
+    pm = parent_map(f.node)
+    cur = node
+    while id(cur) in pm:
+        par, fld = pm[id(cur)]
+        if isinstance(par, ast.Raise):
+            return True
+        if isinstance(par, ast.If) and fld == "test":
+            return bool(par.body) and all(isinstance(b, ast.Raise) for b in par.body) and not par.orelse
+        if isinstance(par, ast.stmt):
+            return False
+        cur = par
+    return False
+
+
 def check(ctx):
     repo = ctx.repo
     ctx.rule("R11.10", "no stateful closures: callables stored on the solver keep no state between calls", 1)
@@ -48,6 +65,7 @@ def check(ctx):
         raise AnalysisError(f"recording options {sorted(missing)} no longer exist in SolverOptions")
     ctx.note("physics_options", sorted(set(fields) - RECORDING))
     readers: Dict[str, Set[str]] = {}
+    range_checks: List[str] = []
     from ..dataflow import expanded_text
     for f in repo.all_functions():
         if f.module.name.startswith("tdgl.visualization") or f.module.name in ("tdgl.visualize",):
@@ -61,7 +79,11 @@ def check(ctx):
                 t = repo.expr_type(f, n.value, env)
                 last = expanded_text(f.node, n.value).split(".")[-1]
                 if (t or "").endswith(":SolverOptions") or "option" in last.lower() or "option" in norm(n.value).split(".")[-1].lower():
+                    if _only_rejects(f, n):
+                        range_checks.append(f"{f.fq}: {n.attr}")
+                        continue
                     readers.setdefault(f.fq, set()).add(n.attr)
+    ctx.note("recording_options_read_only_to_reject", sorted(set(range_checks)))
     for fq, fl in sorted(readers.items()):
         # the runner and its recorder as a whole are the allowed readers: any method of Runner / DataHandler, and functions nested
         # in (or extracted into the same class as) an allowed reader
